@@ -24,6 +24,8 @@ func checkC06(c *Ctx) {
 	c.Rule("C06/R7", "grammar ↔ operators: OR builds OpOr, juxtaposition/AND builds OpAnd, '-' builds OpNot with one child, '*' builds OpAnd without children, key:(a OR b) builds OpOr of matches")
 	c.Rule("C06/R8", "extractor results are views into the Result: they are consumed immediately (matched, converted to string, interned) and never stored in state that outlives the call")
 
+	c.Rule("C06/R10", "what a /key term is matched against: the sub-name lookup scans all parts of the name in order and takes the first part carrying the key (same rule as C05/R4)")
+	c.Rule("C06/R9", "no stale verdicts: any cache inside the filter's compiled closures and the functions they call is keyed by every input of the cached value (a per-filter memo keyed by the base unit alone would hand a later measurement with another written unit the first one's verdict); today there is none, and the detector is shown to work on the unit-tidying cache")
 	p := mustLoad(c, loadOpts{}, "./benchproc", "./benchproc/internal/parse", "./benchfmt", "./benchunit", "./benchmath")
 	c06Combiners(c, p)
 	c06Bits(c, p)
@@ -33,6 +35,8 @@ func checkC06(c *Ctx) {
 	c06Conjoin(c, p)
 	c06Grammar(c, p)
 	c06Views(c, p)
+	c06Memo(c, p)
+	c05Lookup(c, p, "C06/R10")
 }
 
 // bitOpOf: the single bitwise operator a mask method applies to its elements ("&", "|", "^").
@@ -1108,4 +1112,48 @@ func c06Grammar(c *Ctx, p *Prog) {
 	}
 	c.Check(strings.Join(found, "\n") == strings.Join(want, "\n"), R, "grammar:node-construction", "", "each production builds the documented node: "+strings.Join(found, "; "),
 		"the parser's productions do not build the documented nodes:\n  found:    "+strings.Join(found, "; ")+"\n  expected: "+strings.Join(want, "; "))
+}
+
+func c06Memo(c *Ctx, p *Prog) {
+	const R = "C06/R9"
+	nf := p.Fn("benchproc", "NewFilter")
+	if nf == nil {
+		c.Undecided(R, "anchor:NewFilter", "", "not found")
+		return
+	}
+	// functions on the match path: NewFilter, its closures (transitively) and what they call inside benchproc
+	var roots []*ssa.Function
+	var addAnon func(f *ssa.Function)
+	addAnon = func(f *ssa.Function) {
+		roots = append(roots, f)
+		for _, a := range f.AnonFuncs {
+			addAnon(a)
+		}
+	}
+	addAnon(nf)
+	if m := p.Method("benchproc", "Filter", "Match"); m != nil {
+		roots = append(roots, m)
+	}
+	reach := staticReach(roots, bprocPkg)
+	inReach := map[*ssa.Function]bool{}
+	for _, f := range reach {
+		inReach[f] = true
+	}
+	for _, f := range roots {
+		inReach[f] = true
+	}
+	var fns []*ssa.Function
+	for f := range inReach {
+		fns = append(fns, f)
+	}
+	sort.Slice(fns, func(i, j int) bool { return fns[i].String() < fns[j].String() })
+	n := checkMemoSites(c, p, R, findMemoSites(fns), nil)
+	if n == 0 {
+		c.OK(R, "filter:no-cache", p.pos(nf.Pos()), fmt.Sprintf("no cache store in the %d functions on the match path", len(fns)))
+	}
+	// positive control: the detector sees the tidy cache
+	if p.HasPkg("benchunit") {
+		ctl := findMemoSites(p.Funcs("benchunit"))
+		c.Check(len(ctl) >= 1, R, "control:tidy-cache-detected", "", "the cache detector finds the unit-tidying cache", "the cache detector no longer recognises the unit-tidying cache (positive control)")
+	}
 }
